@@ -8,7 +8,8 @@ from mirsmt.sym import Ptr, Native, bv
 ASSUME = ["scenario programs are Rust functions in /verif/mirharness (nested with_local_recorder closures, guards dropped in LIFO / solver-chosen order, leaked guard, panic unwinding through a scope, global fall-through); only their MIR is executed, together with the MIR of metrics::recorder",
           "thread-locals: LocalKey::with calls the closure on a per-thread cell (the language guarantee that a thread-local is not visible to other threads is not re-checked); Cell/NonNull as plain cells",
           "dyn Recorder dispatch is observed by the identity of the receiving recorder object; a ghost list of live local installations (innermost last) is the oracle",
-          "macro forms (key_var!/metadata_var!/describe!) are not covered by this check yet: name/labels/level/target as spelled at the call site",
+          "macro forms: the expansions of counter!/gauge!/histogram!/describe_*! at the call sites of mirharness::m_forms / m_dynamic are executed (statics they create included); Key/Label constructors are abstract "
+          "(they record the name and the label list they are given: that Key keeps what it is given is C03/C14's subject); label forms with non-literal keys/values (`expr => expr`, vec! allocation) are not covered",
           "one thread; nesting depth <= 3"]
 LOCALS = (1, 2, 3)
 
@@ -170,6 +171,139 @@ def global_scenario(e3):
     check.discharge_many(e3.res, specs, 120)
 
 
+def macro_forms(e3):
+    """Every argument form of counter!/gauge!/histogram!/describe_*! (one call site per function in /verif/mirharness, expected delivery in
+    mirharness::FORMS), and call sites with a computed name reached twice with different names. The recorder double must receive, per
+    call site, exactly one call: that operation with the name, labels (in order), level, target, unit and description spelled there."""
+    import re
+    from mirsmt import models_str as MS, models_coll as MC
+    from mirsmt.sym import Agg, Enum, Opaque, UNIT
+    src = open(os.path.join(VERIF, "mirharness", "src", "lib.rs")).read()
+    tbl = src[src.index("pub const FORMS"):]
+    tbl = tbl[:tbl.index("];")]
+    forms = [tuple(m) for m in re.findall(r'\("([^"]*)", "([^"]*)", "([^"]*)", "([^"]*)", "([^"]*)", "([^"]*)", "([^"]*)"\)', tbl)]
+    P = _e3.program(["metrics"], harness=True)
+    units = P.enums.get("Unit", [])
+    levels = ["TRACE", "DEBUG", "INFO", "WARN", "ERROR"]
+
+    def ld(eng, ctx, v):
+        return MC.load(eng, ctx, v)
+
+    def text(eng, ctx, v):
+        v = ld(eng, ctx, v)
+        if isinstance(v, Enum) and v.name == "Option":
+            return None if v.discr == 0 else text(eng, ctx, v.v[1].f[0])
+        items = MS.as_items(eng, ctx, v)
+        if not all(z3.is_bv_value(z3.simplify(x)) for x in items):
+            raise sym.Unsupported(f"text of {v}")
+        return "".join(chr(z3.simplify(x).as_long()) for x in items)
+
+    def labels_of(eng, ctx, v):
+        v = ld(eng, ctx, v)
+        if isinstance(v, Agg):
+            return tuple(ld(eng, ctx, v.f[k]) for k in sorted(v.f))
+        if isinstance(v, Native) and v.kind == "lvec":
+            return tuple(ld(eng, ctx, x) for x in v.data)
+        raise sym.Unsupported(f"label list {v}")
+
+    def m_key(with_labels):
+        def h(eng, ctx, f, path, args, dty):
+            return Native("mkey", {"name": ld(eng, ctx, args[0]), "labels": labels_of(eng, ctx, args[1]) if with_labels else ()})
+        return h
+
+    def m_dispatch(eng, ctx, f, path, args, dty):
+        op = path.split("::")[-1]
+        row = {"op": op, "rec": models_rec.rec_id(eng, ctx, args[0])}
+        if op.startswith("register"):
+            k = ld(eng, ctx, args[1])
+            md = ld(eng, ctx, args[2])
+            if not (isinstance(k, Native) and k.kind == "mkey"):
+                raise sym.Unsupported(f"key handed to the recorder: {k}")
+            row["name"] = text(eng, ctx, k.data["name"])
+            row["labels"] = ",".join(f"{text(eng, ctx, l.data[0])}={text(eng, ctx, l.data[1])}" for l in k.data["labels"])
+            lvl = md.f[1]
+            while isinstance(lvl, Agg) and len(lvl.f) == 1:
+                lvl = list(lvl.f.values())[0]
+            row["level"] = levels[lvl.discr] if isinstance(lvl, Enum) and isinstance(lvl.discr, int) and 0 <= lvl.discr < 5 else str(lvl)
+            row["target"] = text(eng, ctx, md.f[0])
+            row["module"] = text(eng, ctx, md.f[2])
+            row["unit"], row["desc"] = "", ""
+        else:
+            row["name"] = text(eng, ctx, args[1])
+            u = ld(eng, ctx, args[2])
+            if isinstance(u, Enum) and isinstance(u.discr, int) and u.discr == 1:
+                uv = u.v[1].f[0]
+                row["unit"] = units[uv.discr].lower() if isinstance(uv, Enum) and isinstance(uv.discr, int) and uv.discr < len(units) else str(uv)
+            else:
+                row["unit"] = ""
+            row["desc"] = text(eng, ctx, args[3])
+            row["labels"], row["level"], row["target"] = "", "", ""
+        ctx.observe("delivered", **row)
+        return Opaque("handle") if op.startswith("register") else UNIT
+    m = dict(models_rec.REC_MODELS)
+    m.update({r"^<dyn Recorder as Recorder>::\w+$|^<dyn recorder::Recorder as recorder::Recorder>::\w+$": m_dispatch,
+              r"Key::from_static_name$|Key::from_name$": m_key(False), r"Key::from_static_parts$|Key::from_static_labels$|Key::from_parts$": m_key(True),
+              r"Label::from_static_parts$|Label::new$": lambda eng, ctx, f, path, args, dty: Native("mlabel", (ld(eng, ctx, args[0]), ld(eng, ctx, args[1]))),
+              r" as Into>::into$|KeyName::from_const_str$|Cow::const_str$|^<String as From>::from$": lambda eng, ctx, f, path, args, dty: ld(eng, ctx, args[0]),
+              r"^<(Counter|Gauge|Histogram|Key) as Drop>::drop$": lambda *a: UNIT})
+    m.update(models.BASE)
+    eng = sym.Engine(P, models=m, max_paths=2000)
+    eng.tls_init = {}
+    eng.drop_impls = False
+    eng.const_override = {"LOCAL_RECORDER": Native("localkey", "LOCAL_RECORDER"), "FALLBACK_RECORDER": Native("localkey", "FALLBACK_RECORDER")}
+    ctx0 = sym.Ctx(eng, 1)
+    rid = ctx0.alloc("Rec1", {(): (64, bv(1))})
+    eng.static_objs["rec1"] = Ptr(("obj", rid))
+    cell = ctx0.alloc("RecorderOnceCell", {(0,): ("ptr", z3.IntVal(0)), (1,): (64, bv(0))})
+    eng.static_objs["GLOBAL_RECORDER"] = Ptr(("obj", cell))
+    noop = ctx0.alloc("NoopRecorder", {(): (64, bv(0))})
+    eng.static_objs["NOOP_RECORDER"] = Ptr(("obj", noop))
+    bodies = [P.find_fn("m_forms"), P.find_fn("m_dynamic")]
+
+    def script():
+        for b in bodies:
+            yield ("call", b, [])
+        return None
+    leaves = eng.run_script(1, "c01_macro_forms", script, ctx0=ctx0)
+    e3.absorb(eng)
+    sc = rf_constraints(eng)
+    base = list(sc.cons)
+    done = [l for l in leaves if l.status == "done"]
+    other = z3.Or(*[l.taken() for l in leaves if l.status != "done"] or [z3.BoolVal(False)])
+    bad = []
+    detail = []
+    for l in done:
+        rows = [pl for lab, e, pl in l.obs if lab == "delivered"]
+        got = [(r["op"], r["name"], r["labels"], r["level"], r["target"], r["unit"], r["desc"]) for r in rows]
+        wrong = [(i, g, w) for i, (g, w) in enumerate(zip(got, forms)) if g != w]
+        mods = [r["module"] for r in rows if r["op"].startswith("register") and r.get("module") != "mirharness"]
+        to_other = [r for r in rows if not (z3.is_int_value(z3.simplify(r["rec"])) and z3.simplify(r["rec"]).as_long() == rid)]
+        if wrong or len(got) != len(forms) or mods or to_other:
+            bad.append(l.taken())
+            detail.append({"delivered": len(got), "expected": len(forms), "first_differences": [{"call_site": i, "delivered": g, "spelled": w} for i, g, w in wrong[:4]]})
+    name = "c01_macro_forms"
+    bounds = f"{len(forms)} call sites covering every argument form of counter!/gauge!/histogram!/describe_*! (literal and computed names, literal labels, level:, target:, unit), inside with_local_recorder; computed-name sites reached twice with different names"
+
+    def on_model(ob, model):
+        import replay_e3
+        ob.sample = {"scenario": name, "differences": detail[:2]}
+        os.makedirs(os.path.join(REPLAYS, "C01"), exist_ok=True)
+        pp = os.path.join(REPLAYS, "C01", f"{name}.plan")
+        open(pp, "w").write(replay_e3.plan_text(name, ob.name.split(":")[1], {1: "m_forms m_dynamic"}, [], {}))
+        status, out = replay_e3.run("c01", pp)
+        ob.detail += f" | native replay (c01, the same call sites natively with recording doubles): {status}"
+        ob.sample["native_replay"] = {"status": status, "output": out[-600:]}
+        ob.replay = pp
+        ob.reproduced = status == "reproduced"
+        if not ob.reproduced:
+            ob.status = "error"
+    specs = [dict(name=f"{name}:witness", desc="the call sites run", bounds=bounds, cons=base + [z3.Or(*[l.taken() for l in done] or [z3.BoolVal(False)])], expect_unsat=False),
+             dict(name=f"{name}:no_panic", desc="a call site panics", bounds=bounds, cons=base + [other], expect_unsat=True),
+             dict(name=f"{name}:delivered_exactly_once_as_spelled", desc="a call site's emission does not reach the recorder in scope exactly once with the name, labels, level, target, unit and description spelled there",
+                  bounds=bounds, cons=base + [z3.Or(*bad) if bad else z3.BoolVal(False)], expect_unsat=True, on_model=on_model)]
+    check.discharge_many(e3.res, specs, 120)
+
+
 def run(tier, seed, t0):
     e3 = _e3.E3("C01")
     try:
@@ -183,6 +317,10 @@ def run(tier, seed, t0):
         global_scenario(e3)
     except _e3.ENC_ERRORS as ex:
         e3.error("c01", "MIR->SMT encoding of metrics::recorder scoping", ex)
+    try:
+        macro_forms(e3)
+    except _e3.ENC_ERRORS as ex:
+        e3.error("c01_macro_forms", "MIR->SMT encoding of the macro expansions", ex)
     finish("C01", tier, seed, list(e3.res.obligations), t0, ASSUME + ["E3 callee models: " + ", ".join(sorted(e3.models))], sorted(e3.functions),
            explanation="MIR->SMT sequential encoding of scenario programs (Rust, /verif/mirharness) over LocalRecorderGuard::{new,drop}, with_local_recorder, with_recorder, set_global_recorder with a ghost scope stack as oracle")
 
